@@ -89,6 +89,13 @@ def spec_objf(engine, state, pb, v):
     return OBJF(pb.e, to_z3(v, IntS))
 
 
+INBOX = z3.Function("inbox", IntS, IntS, BoolS)      # the abstract point value lies in the box of that evolvent
+
+
+def spec_inbox(engine, state, ev, v):
+    return INBOX(ev.e, to_z3(v, IntS))
+
+
 def spec_world(engine, state):
     return Ref(0, "World")
 
@@ -102,7 +109,7 @@ def spec_allocmark(engine, state):
 
 
 SPEC_FUNCS = dict(csd.SPEC_FUNCS)
-SPEC_FUNCS.update({"hroot": spec_hroot, "rpow": spec_rpow, "vecval": spec_vecval, "imgv": spec_imgv, "objf": spec_objf,
+SPEC_FUNCS.update({"inbox": spec_inbox, "hroot": spec_hroot, "rpow": spec_rpow, "vecval": spec_vecval, "imgv": spec_imgv, "objf": spec_objf,
                    "world": spec_world, "below": spec_below, "allocmark": spec_allocmark})
 
 
@@ -273,8 +280,16 @@ G_VAL = ["forall(1, %s.gn - 1, lambda k: finite(%s.GetZ()))" % (SD, item("k")),
          "forall(1, %s.gn - 1, lambda k: self.Z[0] <= %s.GetZ())" % (SD, item("k")),
          "forall(2, %s.gn - 1, lambda k: slope(%s.GetZ(), %s.GetZ(), %s.delta) <= self.M[0])"
          % (SD, item("k - 1"), item("k"), item("k"))]
+BEST_FID = ["{b}.point is not None and {b}.point.floatVariables is not None and "
+            "{b}.GetZ() == objf(%s, vecval({b}.point.floatVariables)) and "
+            "inbox(self.evolvent, vecval({b}.point.floatVariables))" % PB,
+            "{b}.functionValues is not None and vlen({b}.functionValues) == 1 and {b}.functionValues[0] is not None "
+            "and {b}.functionValues[0].value == {b}.GetZ()",
+            "{b}.functionValues is not %s.bestTrials and {b}.functionValues is not %s._allTrials and "
+            "{b}.functionValues is not self.task.perm and {b}.point.floatVariables is not self.evolvent.yValues and "
+            "{b}.point.floatVariables is not self.M and {b}.point.floatVariables is not self.Z" % (SOL, SD)]
 G_BEST = ["%s and self.best.GetIndex() == 0" % member("self.best"),
-          "self.Z[0] == self.best.GetZ()", "%s.bestTrials[0] is self.best" % SOL]
+          "self.Z[0] == self.best.GetZ()", "%s.bestTrials[0] is self.best" % SOL] + [c.replace("{b}", "self.best") for c in BEST_FID]
 GROUPS.update({"rq": G_RQ, "val": G_VAL, "best": G_BEST})
 ALL = ("base", "wf", "own", "ord", "delta", "val", "best", "rq")
 
@@ -293,6 +308,7 @@ def get_image_abs():
                     modifies=["self.yValues", "elems(self.yValues)"],
                     requires=["0 <= x and x <= 1"],
                     ensures=["fresh(result)", "result is not self.yValues", "vecval(result) == imgv(self, x)",
+                             "inbox(self, vecval(result))",
                              "vlen(result) == self.numberOfFloatVariables",
                              "fresh(self.yValues) or self.yValues is old(self.yValues)"],
                     doc="abstract of the GetImage contract verified under C07/C17")
@@ -439,7 +455,9 @@ def calculate_functionals():
                               "self.task.perm[0] == 0 and %s is not None" % PB,
                               "self.searchData is not None and %s is not None" % SOL,
                               "%s is not None and vlen(%s) == 1 and %s[0] is not None" % (fv, fv, fv),
-                              "point.point is not None and point.point.floatVariables is not None"],
+                              "point.point is not None and point.point.floatVariables is not None",
+                              # C05: the objective is only ever evaluated at points of the box
+                              "inbox(self.evolvent, vecval(point.point.floatVariables))"],
                     ensures=["result is point", "point.GetIndex() == 0",
                              "point.GetZ() == objf(%s, vecval(point.point.floatVariables)) and finite(point.GetZ())" % PB,
                              "vlen(%s) == 1 and %s[0] is not None and %s[0].value == point.GetZ()" % (fv, fv, fv),
@@ -511,7 +529,8 @@ def new_item_post(n):
     return ["fresh({n}) and fresh({n}.point) and fresh({n}.point.floatVariables) and fresh({n}.functionValues) and "
             "fresh({n}.functionValues[0])".format(n=n),
             "{n}.GetLeft() is None and {n}.GetRight() is None and vlen({n}.functionValues) == 1".format(n=n),
-            "vecval({n}.point.floatVariables) == imgv(self.evolvent, {n}.GetX())".format(n=n)]
+            "vecval({n}.point.floatVariables) == imgv(self.evolvent, {n}.GetX())".format(n=n),
+            "inbox(self.evolvent, vecval({n}.point.floatVariables))".format(n=n)]
 
 
 def iteration_point():
@@ -574,10 +593,10 @@ def renew_search_data():
                         "oldpoint.GetLeft().GetX() < newpoint.GetX() and newpoint.GetX() < oldpoint.GetX()",
                         "newpoint.GetIndex() == 0 and finite(newpoint.GetZ()) and self.Z[0] <= newpoint.GetZ()",
                         "self.best is newpoint or (%s)" % GROUPS["best"][0], "self.Z[0] == self.best.GetZ()",
-                        "%s.bestTrials[0] is self.best" % SOL],
+                        "%s.bestTrials[0] is self.best" % SOL] + [c.replace("{b}", "self.best") for c in BEST_FID],
                     ensures=keep + inv("rq", "best") + [
-                        "%s.gn == old(%s.gn) + 1 and %s.gseq == seq_insert(old(%s.gseq), old(%s.gpos[oldpoint]), newpoint)"
-                        % (SD, SD, SD, SD, SD),
+                        "%s.gn == old(%s.gn) + 1 and %s" % (SD, SD, csd.ins_rel("%s.gseq" % SD, "old(%s.gseq)" % SD, "old(%s.gn)" % SD,
+                                                                               "old(%s.gpos[oldpoint])" % SD, "newpoint")),
                         "newpoint.delta == hroot(newpoint.GetX() - %s.GetX(), self.dimension)" % l,
                         "oldpoint.delta == hroot(oldpoint.GetX() - newpoint.GetX(), self.dimension)",
                         # C02: M is the largest slope over every neighbouring pair seen so far (per-step form)
@@ -787,7 +806,11 @@ def solve():
 
 
 def solve_loop():
-    return LoopSpec(invariant=P_BASE + p_state() + ["fresh(%s.evolvent.yValues) or %s.evolvent.yValues is old(%s.evolvent.yValues)" % (MT, MT, MT),
+    stopc = "(%s.solutionAccuracy < self.parameters.eps or %s.iterationsCount >= self.parameters.itersLimit)" % (MSOL, MT)
+    return LoopSpec(invariant=P_BASE + p_state() + [
+        # C11: if the criterion held on entry nothing has happened (so the loop body is unreachable)
+        "implies(old(%s) and not old(%s), %s.solutionAccuracy == old(%s.solutionAccuracy) and %s.iterationsCount == "
+        "old(%s.iterationsCount) and %s.gcalls == old(%s.gcalls))" % (stopc, FIRST, MSOL, MSOL, MT, MT, MPB, MPB),"fresh(%s.evolvent.yValues) or %s.evolvent.yValues is old(%s.evolvent.yValues)" % (MT, MT, MT),
         "%s.iterationsCount <= self.parameters.itersLimit" % MT,
         "%s.numberOfGlobalTrials - old(%s.numberOfGlobalTrials) == %s.gevals - old(%s.gevals)" % (MSOL, MSOL, MPB, MPB),
         "%s.gcalls - old(%s.gcalls) == %s.gevals - old(%s.gevals)" % (MPB, MPB, MPB, MPB),
@@ -805,7 +828,7 @@ def stop_listener_loop():
 
 
 def process_contracts():
-    return [get_results(), do_global_iteration(), solve()]
+    return [get_results(), do_global_iteration(), solve(), problem_calculate_wrapper(), do_local_refinement()]
 
 
 def process_loop_specs():
@@ -849,3 +872,91 @@ def console_contracts():
                            "world().gp_solved == status"],
                   doc="C13: the final console report shows the solution's actual trial counts, point, value and accuracy")
     return [pr, pf]
+
+
+# ----------------------------------------------------------------------------- local refinement (C05)
+SCHEMA.update({"lb": "vec:real", "ub": "vec:real", "gx0": "int"})
+
+
+def override_bounds(engine, state, args, kw, node):
+    """scipy.optimize.Bounds(lb, ub): a new object remembering the two vectors (ASSUMED, dependency)"""
+    obj = engine.alloc(state, "Bounds")
+    engine.store(state, obj, "lb", args[0] if args else kw.get("lb"), node, ghost=True)
+    engine.store(state, obj, "ub", args[1] if len(args) > 1 else kw.get("ub"), node, ghost=True)
+    return obj
+
+
+def override_minimize(engine, state, args, kw, node):
+    """ASSUMED contract of scipy.optimize.minimize(fun, x0, method='Nelder-Mead', bounds=B) (dependency, T6):
+    PRECONDITION (obligations at the call site): bounds are passed and are the box of the problem, x0 lies in the box;
+    then fun is evaluated only at points of the box, result.x lies in the box, fun(result.x) <= fun(x0),
+    result.nfev = number of evaluations of fun.  Without `bounds` the contract promises nothing about the box."""
+    fun = args[0] if args else kw.get("fun")
+    x0 = kw.get("x0", args[1] if len(args) > 1 else None)
+    b = kw.get("bounds")
+    engine.oblige(state, b is not None, "requires[scipy.optimize.minimize#bounds]", node,
+                  "precondition of the assumed SciPy contract: the search box is passed (bounds=...)")
+    if not isinstance(fun, BoundMethod) or fun.name != "problemCalculate":
+        engine.unsupported("objective handed to scipy.optimize.minimize is not Process.problemCalculate", node)
+    proc = fun.recv
+    task = engine.load(state, proc, "task")
+    pb = engine.load(state, task, "problem")
+    ev = engine.load(state, proc, "evolvent")
+    if b is not None and isinstance(b, Ref):
+        lb, ub = engine.load(state, b, "lb"), engine.load(state, b, "ub")
+        plo = engine.load(state, pb, "lowerBoundOfFloatVariables")
+        pup = engine.load(state, pb, "upperBoundOfFloatVariables")
+        engine.oblige(state, z3.And(lb.e == plo.e, ub.e == pup.e), "requires[scipy.optimize.minimize#box]", node,
+                      "the bounds handed to SciPy are the problem's lower / upper bound vectors")
+    if not isinstance(x0, Ref):
+        engine.unsupported("x0 of scipy.optimize.minimize", node)
+    v0 = spec_vecval(engine, state, x0)
+    engine.oblige(state, INBOX(ev.e, v0), "requires[scipy.optimize.minimize#x0]", node, "the start point lies in the box")
+    res = engine.alloc(state, "OptimizeResult")
+    x = engine.vec_new(state, "vec:real", length=engine.vec_len(state, x0))
+    engine.store(state, res, "x", x, node, ghost=True)
+    nfev = engine.fresh("nfev", IntS)
+    fx = OBJF(pb.e, spec_vecval(engine, state, x))
+    engine.store(state, res, "nfev", nfev, node, ghost=True)
+    engine.store(state, res, "fun", fx, node, ghost=True)
+    engine.store(state, res, "gx0", v0, node, ghost=True)
+    state.assume(nfev >= 0)
+    if b is not None:
+        state.assume(INBOX(ev.e, spec_vecval(engine, state, x)))
+        state.assume(fx <= OBJF(pb.e, v0))
+        state.assume(z3.And(fx > NINF, fx < PINF))
+    # the objective was called nfev times (inside the box when bounds were passed)
+    for cnt in ("gcalls", "gevals"):
+        engine.store(state, pb, cnt, engine.load(state, pb, cnt) + nfev, node, ghost=True)
+    return res
+
+
+OVERRIDES.update({"scipy.optimize.Bounds": override_bounds, "scipy.optimize.minimize": override_minimize})
+
+
+def problem_calculate_wrapper():
+    return Contract(F_PROC, "Process.problemCalculate", params={"y": "vec:real"}, result="real",
+                    modifies=["self.task.problem.gcalls", "self.task.problem.gevals"],
+                    requires=["self.task is not None and self.task.problem is not None and self.evolvent is not None",
+                              "inbox(self.evolvent, vecval(y))"],
+                    ensures=["result == objf(self.task.problem, vecval(y)) and finite(result)",
+                             "self.task.problem.gevals == old(self.task.problem.gevals) + 1"],
+                    raises={"$any": ["self.task.problem.gevals == old(self.task.problem.gevals)"]},
+                    doc="C05: one objective evaluation at a point of the box, on a fresh Point and a fresh value holder")
+
+
+def do_local_refinement():
+    bt = "%s.bestTrials[0]" % MSOL
+    return Contract(F_PROC, "Process.DoLocalRefinement", params={"number": "int"}, result="none",
+                    modifies=["self.localMethodIterationCount", "%s.point.floatVariables" % bt, "%s.functionValues[0].value" % bt,
+                              "%s.numberOfLocalTrials" % MSOL, "%s.gcalls" % MPB, "%s.gevals" % MPB],
+                    requires=P_BASE + on_method(GROUPS["base"][:3] + GROUPS["best"]) + [
+                        "self.task.problem.lowerBoundOfFloatVariables is not None and "
+                        "self.task.problem.upperBoundOfFloatVariables is not None"],
+                    ensures=["inbox(self.evolvent, vecval(%s.point.floatVariables))" % bt,
+                             "%s.functionValues[0].value == objf(%s, vecval(%s.point.floatVariables))" % (bt, MPB, bt),
+                             "%s.functionValues[0].value <= old(%s.functionValues[0].value)" % (bt, bt)],
+                    raises={"$any": []},
+                    doc="C05: the refinement starts from the optimum, hands the box to the (assumed) SciPy contract, so every "
+                        "evaluation and the returned point stay in the box; the reported value is the objective re-evaluated at "
+                        "the returned point and is not worse than the best global trial")
